@@ -237,7 +237,11 @@ type redactOut struct {
 	Err   bool   `json:"err"`
 	Stage string `json:"stage,omitempty"` // prepare | eval when err
 	Panic bool   `json:"panic"`
-	Same  bool   `json:"same"` // Apply (expand+parse+precompute+eval in one call) gave the same truth and record
+	// Apply (expand+parse+precompute+eval in one call) on the same input; compared by the caller as
+	// values after un-nesting (a re-encoded nested JSON document has Go-map key order)
+	Truth2 bool   `json:"truth2"`
+	Rec2   string `json:"rec2"`
+	Err2   bool   `json:"err2"`
 }
 
 // redact: lines {"q": query, "r": record JSON}; runs the real PrepareQuery + Eval, and Apply.
@@ -267,20 +271,10 @@ func redact() {
 			}
 			out.Truth, out.Rec = truth, rec
 			t2, r2, err := kfl.Apply([]byte(in.R), in.Q)
-			out.Same = err == nil && t2 == truth && sameJSON(r2, rec)
+			out.Truth2, out.Rec2, out.Err2 = t2, r2, err != nil
 		}()
 		b, _ := json.Marshal(out)
 		w.Write(b)
 		w.WriteByte('\n')
 	})
-}
-
-func sameJSON(a, b string) bool {
-	var x, y interface{}
-	if json.Unmarshal([]byte(a), &x) != nil || json.Unmarshal([]byte(b), &y) != nil {
-		return a == b
-	}
-	ca, _ := json.Marshal(x)
-	cb, _ := json.Marshal(y)
-	return string(ca) == string(cb)
 }
